@@ -7,8 +7,8 @@ LEVEL_TEXT = ("Bounded model checking of the real file-type outputs over the std
               "record length n and stdio buffer capacity B (both symbolic, pure arithmetic in the model, B up to 2^20). Interleaving of "
               "concurrent writers is then excluded by the kernel's O_APPEND write atomicity (contract).")
 LEVEL_NOTE = ("Trusted: CBMC; the stdio contract in models/vfs.c (one write() per flush only while the data fits the buffer; fopen 'a' = "
-              "O_APPEND|O_CREAT without O_TRUNC); POSIX append atomicity of a single write(). Known finding: records larger than the stdio buffer.")
-ASSUMPTIONS = oc.ASSUMPTIONS + ["known finding record_larger_than_stdio_buffer is excluded by assuming n+1 <= B in the passing queries and confirmed present by the kf_* query"]
+              "O_APPEND|O_CREAT without O_TRUNC; open() flags as given); POSIX append atomicity of a single write(). The pinned tree's defect (records larger than the stdio buffer split into several writes) was repaired in /repo (known_findings.txt).")
+ASSUMPTIONS = oc.ASSUMPTIONS
 
 
 def queries(ctx):
